@@ -326,8 +326,8 @@ impl<'a, 'tcx> Cx<'a, 'tcx> {
             Const::Unevaluated(u, _) => {
                 v.push(("ck", s("item")));
                 v.push(("item", s(key(tcx, u.def))));
-                if u.promoted.is_some() {
-                    v.push(("promoted", J::Bool(true)));
+                if let Some(pi) = u.promoted {
+                    v.push(("promoted", J::Num(pi.as_usize() as i128)));
                 }
             }
             Const::Val(val, _) => {
@@ -765,6 +765,31 @@ fn function_json<'tcx>(tcx: TyCtxt<'tcx>, did: DefId, body: &mir::Body<'tcx>, ki
         blocks.push(cx.block(bb, data));
     }
     v.push(("blocks", J::Arr(blocks)));
+    // promoted constants (`&ReplyOn::Always`, `&[..]` literals): bodies in the same format
+    if matches!(tcx.def_kind(did), DefKind::Fn | DefKind::AssocFn | DefKind::Closure) {
+        let proms = tcx.promoted_mir(did);
+        let mut pv = Vec::new();
+        for (pi, pbody) in proms.iter_enumerated() {
+            let pcx = Cx { tcx, body: pbody, owner: did };
+            let mut pblocks = Vec::new();
+            for (bb, data) in pbody.basic_blocks.iter_enumerated() {
+                if data.is_cleanup {
+                    continue;
+                }
+                pblocks.push(pcx.block(bb, data));
+            }
+            let mut plocals = Vec::new();
+            for (_l, d) in pbody.local_decls.iter_enumerated() {
+                plocals.push(ty_info(tcx, d.ty));
+            }
+            pv.push(J::Obj(vec![
+                ("idx", J::Num(pi.as_usize() as i128)),
+                ("locals", J::Arr(plocals)),
+                ("blocks", J::Arr(pblocks)),
+            ]));
+        }
+        v.push(("promoted", J::Arr(pv)));
+    }
     J::Obj(v)
 }
 
